@@ -59,6 +59,9 @@ def numeric(tier, seed):
         S("Potato", "SiltLoam", seed=seed + 6, plant_md=(2, 28), year=2003, seasons=2),
         S("Sorghum", "Loam", seed=seed + 7, lead=37, seasons=3),                       # start before planting, jumps between seasons
         S("BarleyGDD", "SandyLoam", seed=seed + 8, lead=5, seasons=2, regime="warm"),
+        # a leap day inside the first season / inside the span of the derived latest harvest date (the model derives it in the reference year 1990)
+        S("Wheat", "Loam", seed=seed + 9, plant_md=(10, 15), year=2003, seasons=2),
+        S("Barley", "SandyLoam", seed=seed + 10, plant_md=(1, 20), year=2004, seasons=2, off_season=True),
     ]
     if tier == "thorough":
         for i in range(60):
